@@ -153,7 +153,7 @@ prop("C11", modules=["wire"],
 FWAC = "reference:FunctionReferenceWithArguments."
 prop("C04", modules=["args"],
      functions=[FWAC + "_compute_effective_kwargs", FWAC + "_compute_effective_kwargs_with_context_args", FWAC + "__init__",
-                "reference:ArgumentHasher.compute_hash", "reference:ArgumentHasher._encode"],
+                "reference:ArgumentHasher.compute_hash", "reference:ArgumentHasher._encode", "reference:ArgumentHasher._normalized_json@scalar"],
      design_ref="DESIGN.md section 6, C04",
      trusted=["json.dumps on primitives, isoformat, SHA-256, hashlib accumulation: uninterpreted / assumed model",
               "_normalized_json is summarised by nj(obj): its independence of dict insertion order (sorted keys) is NOT proved",
